@@ -76,10 +76,36 @@ where
         let b = json_data.b;
         let cones = json_data.cones;
         let settings = settings.unwrap_or(json_data.settings);
+
+        // the file content is untrusted: reject anything the constructor
+        // would not accept (or would panic on) as invalid data
+        validate_json_problem(&P, &q, &A, &b, &cones, &settings)
+            .map_err(|e| io::Error::new(io::ErrorKind::InvalidData, e))?;
+
         let solver = Self::new(&P, &q, &A, &b, &cones, settings);
 
         Ok(solver)
     }
+}
+
+fn validate_json_problem<T: FloatT>(
+    P: &CscMatrix<T>,
+    q: &[T],
+    A: &CscMatrix<T>,
+    b: &[T],
+    cones: &[SupportedConeT<T>],
+    settings: &DefaultSettings<T>,
+) -> Result<(), String> {
+    settings.validate()?;
+    P.check_format().map_err(|e| format!("P: {}", e))?;
+    A.check_format().map_err(|e| format!("A: {}", e))?;
+
+    let (m, n) = (b.len(), q.len());
+    let p = cones.iter().fold(0, |acc, cone| acc + cone.nvars());
+    if !(P.is_square() && P.ncols() == n && A.ncols() == n && A.nrows() == m && p == m) {
+        return Err("problem dimensions are inconsistent".to_string());
+    }
+    Ok(())
 }
 
 fn sanitize_settings<T: FloatT>(settings: &mut DefaultSettings<T>) {
